@@ -21,7 +21,7 @@ META = {
     "timeout": {"quick": 400, "thorough": 1500}, "parts": {"quick": 16, "thorough": 16}},
   "h_multiline": {"kind": "G",
     "functions": ["SameID._process_not_unique/_import_tags_of_previous_group_definition/_check_tags_of_previous_group_definition", "group References._initialize_references/_line_for_ref_symbol", "VirtualToReal._substitute_virtual_line"],
-    "bounds": "U and O groups defined by 2..3 lines with one identifier: item lists from a pool of 6, tags disjoint / equal / contradicting, every arrival order of the group lines among the other lines that define their items (4! orders): items = concatenation in arrival order, tags = union, contradicting tags refused without a trace",
+    "bounds": "U and O groups defined by 2..3 lines with one identifier: item lists from a pool of 6, tags disjoint / equal / contradicting, every arrival order of the group lines among a line that defines one of their items and a group that lists the multi-line group (4! orders): items = concatenation in arrival order, tags = union, contradicting tags refused without a trace",
     "timeout": {"quick": 300, "thorough": 900}, "parts": {"quick": 8, "thorough": 8}},
  },
 }
@@ -29,9 +29,10 @@ META = {
 BASE = ["S\ts1\t10\t*", "S\ts2\t10\t*", "S\ts3\t10\t*", "S\ts4\t10\t*",
         "E\te12\ts1+\ts2+\t5\t10$\t0\t5\t*", "E\te23\ts2+\ts3-\t5\t10$\t5\t10$\t*", "E\te34\ts3-\ts4+\t0\t5\t0\t5\t*",
         "E\te12b\ts1+\ts2+\t7\t10$\t0\t3\t*", "E\te41\ts4-\ts1-\t0\t3\t0\t3\t*", "E\te13\ts1+\ts3+\t2\t4\t2\t4\t*",
-        "O\toin\ts2+ s3-", "U\tuin\ts4 e12", "G\tg1\ts1+\ts2-\t5\t*"]
-OPOOL = [("s1", "+"), ("s2", "+"), ("s3", "-"), ("e12", "+"), ("e23", "+"), ("e34", "-"), ("oin", "+"), ("oin", "-"), ("s2", "-"),
-         ("s1", "-"), ("s3", "+"), ("s4", "+"), ("s4", "-"), ("e12", "-"), ("e23", "-"), ("e34", "+"), ("e41", "+"), ("zz", "+")]
+        "O\toin\ts2+ s3-", "U\tuin\ts4 e12", "G\tg1\ts1+\ts2-\t5\t*",
+        "S\ts5\t10\t*", "E\t*\ts4+\ts5+\t6\t10$\t0\t4\t*", "E\t*\ts4+\ts5+\t7\t10$\t0\t3\t*"]     # two anonymous parallel edges
+OPOOL = [("s1", "+"), ("s2", "+"), ("s3", "-"), ("e12", "+"), ("e23", "+"), ("s4", "+"), ("s5", "+"), ("oin", "-"), ("s2", "-"), ("e34", "-"), ("oin", "+"), ("s5", "-"),
+         ("s1", "-"), ("s3", "+"), ("s4", "-"), ("e12", "-"), ("e23", "-"), ("e34", "+"), ("e41", "+"), ("zz", "+")]
 NOP = len(OPOOL)
 NOP3 = vp.T(7, NOP)
 UPOOL = ["s1", "s2", "s4", "e12", "e23", "oin", "uin", "zz", "s3", "e41", "e13", "g1"]
@@ -67,6 +68,8 @@ def h_captured_path(k: int, i0: int, i1: int, i2: int) -> bool:
   except gfapy.Error as e:
     vp.reached("cp", items, type(e).__name__, werr)
     return want is None and isinstance(e, ERR[werr])
+  # anonymous edges: the oracle numbers them
+  want = [((("*", o) if n.startswith("*#") else (n, o))) for (n, o) in want] if want is not None else None
   vp.reached("cp", items, "ok", werr)
   if want is None or got != want: return False
   segs = [(str(x.name), x.orient) for x in ox.captured_segments]
@@ -123,7 +126,9 @@ def h_multiline(ordered: bool, a: int, b: int, c: int, three: bool, ti: int, cod
   tags = [t1, t2, ""][:len(parts)]
   glines = [rt + "\tgx\t" + p + (("\t" + t) if t else "") for p, t in zip(parts, tags)]
   # arrival order of: the group lines (kept in their relative order) and a late segment / edge definition
-  others = ["S\ts4\t10\t*", "E\te23\ts2+\ts3-\t5\t10$\t5\t10$\t*"]
+  # and of a group that lists the multi-line group (it may arrive before, between or after its lines)
+  parent = "O\tpx\tgx+" if ordered else "U\tpx\tgx s1"
+  others = [parent, "E\te23\ts2+\ts3-\t5\t10$\t5\t10$\t*"]
   fixed = ["S\ts1\t10\t*", "S\ts2\t10\t*", "S\ts3\t10\t*", "E\te12\ts1+\ts2+\t5\t10$\t0\t5\t*", "O\toin\ts2+ s3-"]
   movable = glines[:2] + others
   perm = vp.perm_from(code, 4)
@@ -132,7 +137,7 @@ def h_multiline(ordered: bool, a: int, b: int, c: int, three: bool, ti: int, cod
   gi = [arrival.index(x) for x in glines[:2]] if glines[0] != glines[1] else [0, 1]
   if gi[0] > gi[1]:
     arrival[gi[0]], arrival[gi[1]] = arrival[gi[1]], arrival[gi[0]]
-  doc = fixed + arrival + glines[2:]
+  doc = fixed + arrival + ["S\ts4\t10\t*"] + glines[2:]
   contradict = (t1, t2) == ("xx:i:1", "xx:i:2")
   with NoTracing():
     g = gfapy.Gfa(version="gfa2", vlevel=1)
@@ -163,6 +168,11 @@ def h_multiline(ordered: bool, a: int, b: int, c: int, three: bool, ti: int, cod
     if sorted(f[3:]) != sorted(want_tags): return False
     # one group line only, found under its identifier, references symmetric
     if len([x for x in g.lines if x.record_type == rt and str(x.name) == "gx"]) != 1: return False
+    # the group that lists gx refers to the complete group, and gx knows it
+    px = g.line("px")
+    it = px.items[0]
+    if (it.line if ordered else it) is not l: return False
+    if [x for x in (l.paths if ordered else l.sets)] != [px]: return False
     from spec.observe import invariant
     if invariant(g): return False
   return True
